@@ -449,7 +449,9 @@ func VerifH_C03_Ops() {
 		start := inject()
 		val, err := h.GetXattr(an)
 		ops := verifOps(fs, start)
-		verifAssert(len(ops) == 1 && ops[0].op == "GetXattr" && ops[0].node == n.id && ops[0].s[0] == an, "GetXattr reaches its File with the same name")
+		// (on success the server also clones the File for the attribute fid: a zero-name Walk)
+		verifAssert(len(ops) >= 1 && ops[0].op == "GetXattr" && ops[0].node == n.id && ops[0].s[0] == an, "GetXattr reaches its File with the same name")
+		verifAssert(len(ops) == 1 || (len(ops) == 2 && ops[1].op == "Walk" && len(ops[1].s) == 0), "GetXattr makes no other backend call than the clone for the attribute fid")
 		if verifCheckErr(fs, err, "GetXattr") {
 			verifAssert(verifBytesDiff(val, fs.xattr) == 0, "GetXattr value unchanged")
 		}
@@ -467,7 +469,8 @@ func VerifH_C03_Ops() {
 		start := inject()
 		got, err := h.ListXattrs()
 		ops := verifOps(fs, start)
-		verifAssert(len(ops) == 1 && ops[0].op == "ListXattrs" && ops[0].node == n.id, "ListXattrs reaches its File")
+		verifAssert(len(ops) >= 1 && ops[0].op == "ListXattrs" && ops[0].node == n.id, "ListXattrs reaches its File")
+		verifAssert(len(ops) == 1 || (len(ops) == 2 && ops[1].op == "Walk" && len(ops[1].s) == 0), "ListXattrs makes no other backend call than the clone for the attribute fid")
 		if verifCheckErr(fs, err, "ListXattrs") {
 			verifAssert(len(got) == len(fs.xattrs), "ListXattrs returns every name")
 			for i := 0; i < len(got) && i < len(fs.xattrs); i++ {
